@@ -9,7 +9,7 @@
       `reads` (shared or the thread's own), hands back `f` of those values — a plain result, new
       strings/buffers stored in the fresh private objects `dests`, or an exception;  *what* `f` is
       is the business of C06–C14, here it is a parameter;
-    * `mut op` — any string-level operation of C04 (`SOp`): construction, copy, move, assignment,
+    * `mutate op` — any string-level operation of C04 (`SOp`): construction, copy, move, assignment,
       append, set, clear, destruction …; every object it writes is the thread's own, objects it
       only reads may be shared.
 
@@ -55,7 +55,7 @@ inductive CRes where
 
 inductive TOp where
   | const (reads dests : List Nat) (f : List (Option View) → CRes)
-  | mut (op : SOp)
+  | mutate (op : SOp)
 
 /-- the objects an operation reads without writing them -/
 def _root_.StVerif.StrPool.SOp.reads : SOp → List Nat
@@ -66,7 +66,7 @@ def _root_.StVerif.StrPool.SOp.reads : SOp → List Nat
 /-- decidable form of `SOp.pre` (Lemmas/StrPoolOps.lean): constructor targets are dead user ids, every
     other named object is alive -/
 def aliveB (p : Pool) (o : Nat) : Bool := (p.objs o).isSome
-def deadB (p : Pool) (o : Nat) : Bool := (p.objs o).isNone
+def deadB (p : Pool) (o : Nat) : Bool := !(p.objs o).isSome
 def userB (x : Nat) : Bool := decide (x < 100)
 def convOkB : Outcome (List Nat) → Bool
   | .ok _ => true
@@ -93,18 +93,18 @@ def TOp.toSOp (p : Pool) : TOp → SOp
     | .values vals => .derive (dests.zip vals)
     | .result _ => .query
     | .throws e => .deriveThrow e
-  | .mut op => op
+  | .mutate op => op
 
 /-- what a const call returned (nothing for a mutating operation) -/
 def TOp.result (p : Pool) : TOp → Option CRes
   | .const reads _ f => some (f (reads.map (view p)))
-  | .mut _ => none
+  | .mutate _ => none
 
 /-- the ownership discipline of the property's hypothesis: everything written is the thread's own,
     everything read is shared or the thread's own -/
 def TOp.owned (part : Part) (t : Tid) : TOp → Bool
   | .const reads dests _ => reads.all (readable part t) && dests.all (writable part t)
-  | .mut op => op.targets.all (writable part t) && op.reads.all (readable part t)
+  | .mutate op => op.targets.all (writable part t) && op.reads.all (readable part t)
 
 def TOp.admissible (part : Part) (t : Tid) (p : Pool) (top : TOp) : Bool :=
   top.owned part t && preB (top.toSOp p) p
